@@ -6,6 +6,7 @@ CONSTANTS
   MaxLook = 1
   Proxies = {"p1"}
   PidFaults = FALSE
+  ProxyUnregisters = TRUE
   Mutant = "none"
 INVARIANTS NoDev
 PROPERTIES FailedSpawnInnocent
